@@ -10,6 +10,7 @@ import JubakoModel.Model.SyncVec
 import JubakoModel.Lemmas.SyncVec
 import JubakoModel.Lemmas.Cache
 import JubakoModel.Lemmas.FuncsProto
+import JubakoModel.Lemmas.FuncsSync
 
 namespace Jubako
 
@@ -137,5 +138,22 @@ example :
     let s := (FState.init file atomicAccess [[(0, 2)], [(5, 2)]]).run [0, 0, 0, 1, 1, 1, 0, 0, 0, 1, 1, 1, 1]
     (s.threads 0).got = [(0, 2, [10, 11])] ∧ (s.threads 1).got = [(5, 2, [15, 16])] := by
   decide
+
+/-! ### Tie of the length-publication protocol to the source -/
+
+/-- **The SyncVec model's decoder turn, publication and failure are the statement sequences of
+    `decode_to_end`, and its waiting condition is the closure of `SyncVecRd::wait_for`, as extracted /
+    translated from `bases/io/compression.rs` on every run**: the chunk is read first, then — under the
+    lock — either the new length is published and *all* waiters are notified, or the failure is recorded,
+    all waiters are notified and the decoder stops; a reader keeps waiting while `decoded < end ∧ ¬failed`
+    and succeeds iff `decoded ≥ end` (the model's `.wake`). -/
+theorem c07_syncvec_protocol_is_source_protocol :
+    (Generated.svDecoderLoopShape = decoderTurnStmts ∧ Generated.svDecoderOkShape = decoderPublishStmts ∧
+      Generated.svDecoderErrShape = decoderFailStmts) ∧
+    (∀ (s : SV) (r off end_ : Nat), s.readers[r]? = some (.waiting off end_) →
+      ((s.step (.wake r)).isSome = !Generated.svWaitPredicate s.d s.failedFlag end_) ∧
+      (Generated.svWaitResult s.d end_ = true →
+        s.step (.wake r) = some { s with readers := s.readers.set r (.woke off end_) })) :=
+  ⟨gen_svShapes, wake_iff_source⟩
 
 end Jubako
